@@ -148,14 +148,88 @@ def patched(cpu=8, cpu_raises=False):
 def feed(srv, line):
     """deliver one request line on the calling thread, then run the jobs it queued"""
     srv.on_received_request(line)
-    ex = srv._executor
+    ex = find_executor(srv)
     if hasattr(ex, 'run_jobs'):
         ex.run_jobs()
 
 
+def _attrs(o):
+    try:
+        return list(vars(o).values())
+    except TypeError:
+        return []
+
+
+def find_send_queue(srv):
+    """the outbound queue of the server's sender: by its private path in the current source, or, if a refactoring
+    renamed the attributes, the one real queue.Queue reachable from the server object within three hops"""
+    try:
+        return srv._request_manager._reply_sender._send_queue
+    except AttributeError:
+        pass
+    seen, frontier = set(), [srv]
+    for _ in range(3):
+        nxt = []
+        for o in frontier:
+            for v in _attrs(o):
+                if isinstance(v, real_queue.Queue):
+                    return v
+                if id(v) not in seen and hasattr(v, '__dict__') and type(v).__module__.startswith('lightstreamer_adapter'):
+                    seen.add(id(v))
+                    nxt.append(v)
+        frontier = nxt
+    raise AttributeError('no outbound queue found on the server object')
+
+
+def find_sender(srv):
+    """the server's _Sender object (private path of the current source, or by class within two hops)"""
+    try:
+        return srv._request_manager._reply_sender
+    except AttributeError:
+        pass
+    import lightstreamer_adapter.server as server
+    cls = getattr(server, '_Sender', None)
+    for o in [srv] + [v for v in _attrs(srv) if hasattr(v, '__dict__')]:
+        for v in _attrs(o):
+            if cls is not None and isinstance(v, cls):
+                return v
+    raise AttributeError('no sender object found on the server object')
+
+
+def sender_keepalive(snd):
+    """the interval the writer loop uses: attribute _keepalive, or (renamed) the only numeric attribute of the sender"""
+    if hasattr(snd, '_keepalive'):
+        return snd._keepalive
+    nums = [v for v in _attrs(snd) if isinstance(v, (int, float)) and not isinstance(v, bool)]
+    if len(nums) == 1:
+        return nums[0]
+    raise AttributeError('cannot identify the keepalive attribute of the sender')
+
+
+def sender_queue(snd):
+    """the queue object of a _Sender (whatever the attribute is called)"""
+    q = getattr(snd, '_send_queue', None)
+    if q is not None:
+        return q
+    for v in _attrs(snd):
+        if hasattr(v, 'put') and hasattr(v, 'get') and not isinstance(v, (str, bytes)):
+            return v
+    raise AttributeError('no queue found on the sender object')
+
+
+def find_executor(srv):
+    ex = getattr(srv, '_executor', None)
+    if ex is not None:
+        return ex
+    for v in _attrs(srv):
+        if isinstance(v, InlineExecutor):
+            return v
+    raise AttributeError('no executor found on the server object')
+
+
 def drain(srv):
     """messages currently in the real sender queue (removed), in order"""
-    q = srv._request_manager._reply_sender._send_queue
+    q = find_send_queue(srv)
     out = []
     while True:
         try:
@@ -283,7 +357,7 @@ def start_data(env, adapter, keep_alive=None, pool=0, name='D', user=None, passw
     srv = DataProviderServer(adapter, ('h', 1), **kw)
     # the per-item dequeuer is submitted while the item lock is held: it cannot run
     # inline; feed() runs the pending jobs after each request line
-    srv._executor.inline = False
+    find_executor(srv).inline = False
     return _start(srv, user, password, params, config, handler)
 
 
